@@ -1108,4 +1108,21 @@ theorem one_block_table (n c : Nat) (f : Nat → Nat → Rat) :
   rw [if_pos (show i < (table n c f).r from hi), ent_table _ _ _ i j hi hj]
 
 
+theorem sumL_append (l₁ l₂ : List Rat) : sumL (l₁ ++ l₂) = sumL l₁ + sumL l₂ := by
+  induction l₁ with
+  | nil => simp [sumL]
+  | cons a l ih => simp only [List.cons_append, sumL, ih]; ring
+
+theorem sumL_map_mul_right {α : Type} (l : List α) (f : α → Rat) (c : Rat) :
+    sumL (l.map fun x => f x * c) = sumL (l.map f) * c := by
+  induction l with
+  | nil => simp [sumL]
+  | cons a l ih => simp only [List.map_cons, sumL, ih]; ring
+
+theorem sumL_map_zero {α : Type} (l : List α) : sumL (l.map fun _ => (0 : Rat)) = 0 := by
+  induction l with
+  | nil => rfl
+  | cons a l ih => simp only [List.map_cons, sumL, ih]; ring
+
+
 end PorepyVerif.C26
